@@ -15,6 +15,11 @@ import tomllib
 
 VERIF = os.path.dirname(os.path.dirname(os.path.abspath(__file__)))
 REPO = os.environ.get("VERIF_REPO", "/repo")
+# property the current run decides (set by check.py); None = all (try_unit, rebaseline).  Used by T19: the crash-point assertions are
+# spliced only into the run of the properties a unit lists under `crashpoints_for`, so that a failing crash-point clause (which Verus
+# ASSUMES from there on) cannot mask the clauses of the other properties further down in the same function
+ACTIVE_PROP = None
+CRASH_ACTIVE = True
 VX = os.path.join(VERIF, ".cache", "vx-target", "release", "vx-extract")
 
 
@@ -485,7 +490,7 @@ def emit_fn(data, it, ckey, C, tlog, anchors_used, canary=False):
     # instant between two file mutations.  The places come from the syn call spans of the CURRENT text — a mutation that is added,
     # removed, split in two or moved gets / loses / moves its check with it; no sidecar line says where the writes are.
     cp_names = set(x for fl in C.flag(ckey, "crashpoints") for x in fl)
-    if cp_names:
+    if cp_names and CRASH_ACTIVE:
         inv = C.get(ckey, "crash_inv")
         if inv is None:
             raise Undecided("T19: %s has `crashpoints` but no `crash_inv` section" % ckey)
@@ -644,6 +649,8 @@ def assemble_unit(unit_dir, repo=None, canary=False):
                     C.sections[item] = dict(OC.sections[item])
                 if item in OC.flags:
                     C.flags[item] = dict(OC.flags[item])
+    global CRASH_ACTIVE
+    CRASH_ACTIVE = (ACTIVE_PROP is None) or (ACTIVE_PROP in unit.get("crashpoints_for", []))
     STRUCTURAL.clear()
     STRUCTURAL.update(unit.get("structural", []))
     for item in unit.get("assumed", []):
